@@ -96,6 +96,35 @@ def block(t: str) -> bool:
     return hx.ok(out == want)
 
 
+def _line(text):
+    return (text + '\n') if text else '\n'
+
+
+@hx.harness(props=['C18'], targets=_TG + ['stone.backend:CodeBackend.block'], items=['open', 'close'],
+            bound='block(before, after, delim): the opening or the closing delimiter is None or symbolic text (<= %d chars '
+                  'over { } %% a, including the empty string), with and without `before`, K&R and Allman' % N,
+            outside=_OUT, budget=(300, 900), glue=['install_py_format'])
+def block_delim(t: str, is_none: bool, has_before: bool, allman: bool) -> bool:
+    """
+    pre: len(t) <= N
+    pre: re.fullmatch('[{}%a]*', t)
+    post: _
+    """
+    d = None if is_none else t
+    delim = (d, 'end') if hx.ITEM == 'open' else ('do', d)
+    before = 'b' if has_before else ''
+    b = _B('/x', [])
+    with b.block(before, ';', delim=delim, allman=allman):
+        b.emit('x')
+    out = b.output_buffer_to_string()
+    if before and not allman:
+        want = _line(before + ' ' + delim[0]) if delim[0] is not None else _line(before)
+    else:
+        want = (_line(before) if before else '') + (_line(delim[0]) if delim[0] is not None else '')
+    want += '    x\n' + _line((delim[1] if delim[1] is not None else '') + ';')
+    return hx.ok(out == want)
+
+
 @hx.harness(props=['C18'], targets=_TG + ['stone.backend:Backend.emit_placeholder'],
             bound='named and positional placeholders registered with symbolic text <= %d chars over { } %% a, next to '
                   'an emitted line with symbolic text' % N,
